@@ -356,3 +356,14 @@ package js_ast
 //@   loop 0 invariant forall i int :: 0 <= i && i <= rangeindex ==> stmtOK(ctx, stmts[i], flags)
 //@   loop 1 invariant s.Kind != LocalAwaitUsing && (forall k int :: 0 <= k && k <= rangeindex ==> declOK(ctx, s.Kind, s.Decls[k]))
 //@   loop 2 invariant forall m int :: 0 <= m && m <= rangeindex ==> bindingItemOK(ctx, binding.Items[m])
+
+// C02: a module's export names are only known at run time exactly for CommonJS modules and for ES modules
+// with a dynamic fallback (those that `export *` from a CommonJS or external module: see the comments on
+// ExportsKind). The linker emits the run-time __reExport for a star re-export iff IsDynamic() says so.
+//@ func (ExportsKind).IsDynamic
+//@   arith int
+//@   prop C02
+//@   modifies nothing
+//@   ensures commonjs-is-dynamic: kind == ExportsCommonJS ==> result
+//@   ensures esm-with-fallback-is-dynamic: kind == ExportsESMWithDynamicFallback ==> result
+//@   ensures static-kinds-are-not: kind == ExportsNone || kind == ExportsESM ==> !result
